@@ -521,8 +521,19 @@ class C14(object):
                     offs["%d/%d" % (1 if roff else 0, 1 if coff else 0)] = offs.get("%d/%d" % (1 if roff else 0, 1 if coff else 0), 0) + 1
                     if rnd.random() < 0.15:
                         r2 = (r2 + 50).astype(np.uint16)  # disjoint
+                    high = rnd.random() < 0.04
+                    if high:
+                        # label numbers beyond 65535 (scan-wide numbering): the linear algorithm only (the matrix one is
+                        # quadratic in the number of labels by design)
+                        hb = rnd.choice([65530, 70000, 131070])
+                        l1, l2 = (l1 + hb).astype(np.int32), (l2 + hb).astype(np.int32)
+                        n1, n2 = n1 + hb, n2 + hb
                     want = pair_counter(r1, c1, l1, r2, c2, l2)
                     nl, rcl = lin(r1, c1, l1, n1, r2, c2, l2, n2)
+                    if high:
+                        kept.append((want, nl, rcl, None, None, None))
+                        nontrivial = nontrivial or len(want) > 0
+                        continue
                     nm, rcm = mat(r1, c1, l1, n1, r2, c2, l2, n2)
                     f1 = sf.sparse_frame(r1, c1, (roff + a + 60, coff + b), pixels={"lab": l1})
                     f1.meta["lab"] = {"nlabel": n1}
@@ -534,11 +545,14 @@ class C14(object):
                 # consume the answers afterwards, as properties.pairrow does
                 for k, (want, nl, rcl, nm, rcm, coo) in enumerate(kept):
                     gotl = collections.Counter() if not nl else collections.Counter({(int(x[0]), int(x[1])): int(x[2]) for x in rcl})
-                    gotm = collections.Counter({(int(x[0]), int(x[1])): int(x[2]) for x in rcm}) if nm else collections.Counter()
+                    gotm = collections.Counter({(int(x[0]), int(x[1])): int(x[2]) for x in rcm}) if (nm and rcm is not None) else collections.Counter()
                     if nl != len(want) or gotl != want or (nl and len(rcl) != nl):
                         viol = V("overlaps-linear-wrong", "call %d of %d on one overlaps_linear object: reported %s, shared-pixel "
                                                           "counts are %s" % (k + 1, len(kept), dict(gotl) if nl else nl, dict(want)))
                         break
+                    if nm is None and rcm is None and coo is None and k >= 0 and (nm is None):
+                        digs.append(enginea.sha(sorted(gotl.items())))
+                        continue
                     if nm != len(want) or gotm != want:
                         viol = V("overlaps-matrix-wrong", "call %d of %d on one overlaps_matrix object: reported %s, shared-pixel "
                                                           "counts are %s" % (k + 1, len(kept), dict(gotm), dict(want)))
